@@ -611,6 +611,7 @@ func c03OwnerDNS(c *ctx, u *universe, emitEvery int, enableChange bool) {
 
 func init() {
 	runners["C03"] = func(c *ctx) {
+		c.stateProj = "sp_authority" // the part of the state this property's theorems speak about
 		u := newUniverse()
 		wide := c.thorough() || c.widen
 		runtime.GOMAXPROCS(1) // sequential run; exec reads runtime.MemStats around every call (stop-the-world)
